@@ -1,5 +1,610 @@
-//! stream `hcon` (stub; replaced by its builder)
-pub fn generate(_seed: u64, _cases: usize, _out: &mut Vec<String>) {}
-pub fn run(_toks: &[&str]) -> String {
-    "bad-op".to_string()
+//! Stream `hcon` — HNSW graph construction and maintenance (`HnswIndex::insert` / `remove`) and the
+//! integer parts of the vector quantisers (C18).  Model: `lean/GrafeoModel/Model/HnswBuild.lean`.
+//!
+//! Stateless lines; a history is carried inside one line:
+//!
+//!   hcon hist <metric> <num>/<den> <dim> <M> <M0> <efc> <seed> <ml bits> <ops>
+//!   hcon inv  <same>
+//!
+//!   metric  = e (Euclidean) | m (Manhattan);  alpha = num/den (`HnswConfig::alpha`)
+//!   ops     = <op>|<op>|…   (`_` = none)
+//!   op      = i<id>:<level>:<x>,<y>,…   insert (or re-insert) an integer grid vector; `level` is what
+//!                                        `random_level()` draws for this insert under (seed, ml) — the
+//!                                        generator reads it off the real index, `run` checks it
+//!           | r<id>:<pick>              remove; `pick` = the new entry point when `id` was the entry
+//!                                        point (`nodes.keys().next()` of a std HashMap is random per
+//!                                        map: `run` rebuilds until the real choice equals `pick`)
+//!
+//!   hist → `<core>#<shape>#<len>#<dump>`: verdicts on the REAL dump, `len()`, and `verif_dump()` itself
+//!          (`<entry|N>;<max level>;<id>=<layer 0 list>/<layer 1 list>/…;…`, `_` = empty list), compared
+//!          textually with the graph the model builds.  Grid vectors: every distance is an exact small
+//!          integer (or the f32 square root of one), so comparisons agree with the integer model.
+//!          `ties` when two inserted vectors are equally far from a third (heap order among equals is
+//!          not modelled).
+//!   inv  → core verdict only (ties allowed): `ok`, or `viol:` + the failing ones of
+//!          a (dangling link), d (list longer than M / M0), f1 (entry point missing / absent),
+//!          g (len ≠ number of ids), s (a search from an inserted vector returns > k, a duplicate,
+//!          an absent id, a wrong distance or an unsorted result).
+//!   shape verdict: b (self link), c (duplicate in a list), e (listed above its level),
+//!          f2 (entry point not on max_level / max_level not the greatest level).
+//!
+//!   hcon bq.ham <ints a> <ints b>   → `<words a>;<words b>;<hamming_distance>` (BinaryQuantizer)
+//!   hcon sq.rt <min> <log2 step> <ints> → `<codes>;<dequantised>;within|off` (ScalarQuantizer with
+//!          min, max = min + 255·step: all f32 operations exact)
+#![allow(unused)]
+use crate::util::*;
+use grafeo_common::types::NodeId;
+use grafeo_core::index::vector::{BinaryQuantizer, DistanceMetric, HnswConfig, HnswIndex, ScalarQuantizer, compute_distance};
+use std::collections::{BTreeMap, BTreeSet};
+
+#[derive(Clone)]
+enum Op {
+    Ins(u64, usize, Vec<i64>),
+    Rem(u64, u64),
+}
+
+#[derive(Clone)]
+struct Line {
+    metric: DistanceMetric,
+    num: u64,
+    den: u64,
+    dim: usize,
+    m: usize,
+    m0: usize,
+    efc: usize,
+    seed: u64,
+    ml: u64,
+    ops: Vec<Op>,
+}
+
+fn nat(s: &str) -> Option<u64> {
+    if s.is_empty() || !s.bytes().all(|b| b.is_ascii_digit()) {
+        return None;
+    }
+    s.parse().ok()
+}
+
+fn int(s: &str) -> Option<i64> {
+    match s.strip_prefix('-') {
+        Some(r) => nat(r).map(|v| -(v as i64)),
+        None => nat(s).map(|v| v as i64),
+    }
+}
+
+fn parse_op(dim: usize, t: &str) -> Option<Op> {
+    if let Some(rest) = t.strip_prefix('i') {
+        let p: Vec<&str> = rest.split(':').collect();
+        if p.len() != 3 {
+            return None;
+        }
+        let v: Option<Vec<i64>> = p[2].split(',').map(int).collect();
+        let v = v?;
+        if v.len() != dim {
+            return None;
+        }
+        Some(Op::Ins(nat(p[0])?, nat(p[1])? as usize, v))
+    } else if let Some(rest) = t.strip_prefix('r') {
+        let p: Vec<&str> = rest.split(':').collect();
+        if p.len() != 2 {
+            return None;
+        }
+        Some(Op::Rem(nat(p[0])?, nat(p[1])?))
+    } else {
+        None
+    }
+}
+
+fn parse_line(a: &[&str]) -> Option<Line> {
+    if a.len() != 9 {
+        return None;
+    }
+    let metric = match a[0] {
+        "e" => DistanceMetric::Euclidean,
+        "m" => DistanceMetric::Manhattan,
+        _ => return None,
+    };
+    let (n, d) = a[1].split_once('/')?;
+    if d.contains('/') {
+        return None;
+    }
+    let (num, den) = (nat(n)?, nat(d)?);
+    let dim = nat(a[2])? as usize;
+    let m = nat(a[3])? as usize;
+    let m0 = nat(a[4])? as usize;
+    let efc = nat(a[5])? as usize;
+    let seed = nat(a[6])?;
+    let ml = nat(a[7])?;
+    if den == 0 || dim == 0 || dim > 8 {
+        return None;
+    }
+    let mut ops = Vec::new();
+    if a[8] != "_" {
+        for t in a[8].split('|') {
+            ops.push(parse_op(dim, t)?);
+        }
+    }
+    Some(Line { metric, num, den, dim, m, m0, efc, seed, ml, ops })
+}
+
+fn show_ops(ops: &[Op]) -> String {
+    if ops.is_empty() {
+        return "_".into();
+    }
+    ops.iter()
+        .map(|o| match o {
+            Op::Ins(id, lv, v) => format!("i{}:{}:{}", id, lv, join(v)),
+            Op::Rem(id, pick) => format!("r{}:{}", id, pick),
+        })
+        .collect::<Vec<_>>()
+        .join("|")
+}
+
+fn show_line(op: &str, l: &Line) -> String {
+    format!(
+        "hcon {} {} {}/{} {} {} {} {} {} {} {}",
+        op,
+        if l.metric == DistanceMetric::Euclidean { "e" } else { "m" },
+        l.num,
+        l.den,
+        l.dim,
+        l.m,
+        l.m0,
+        l.efc,
+        l.seed,
+        l.ml,
+        show_ops(&l.ops)
+    )
+}
+
+fn new_index(l: &Line) -> HnswIndex {
+    let mut cfg = HnswConfig::new(l.dim, l.metric);
+    cfg.m = l.m;
+    cfg.m_max = l.m0;
+    cfg.ef_construction = l.efc;
+    cfg.alpha = l.num as f32 / l.den as f32;
+    cfg.ml = f64::from_bits(l.ml);
+    HnswIndex::with_seed(cfg, l.seed)
+}
+
+fn fvec(v: &[i64]) -> Vec<f32> {
+    v.iter().map(|x| *x as f32).collect()
+}
+
+fn idist(metric: DistanceMetric, a: &[i64], b: &[i64]) -> i64 {
+    a.iter().zip(b).map(|(x, y)| if metric == DistanceMetric::Euclidean { (x - y) * (x - y) } else { (x - y).abs() }).sum()
+}
+
+fn tie_free(metric: DistanceMetric, ws: &[Vec<i64>]) -> bool {
+    for i in 0..ws.len() {
+        let mut seen = BTreeSet::new();
+        for j in 0..ws.len() {
+            if j != i && !seen.insert(idist(metric, &ws[i], &ws[j])) {
+                return false;
+            }
+        }
+    }
+    true
+}
+
+fn ins_vecs(ops: &[Op]) -> Vec<Vec<i64>> {
+    ops.iter().filter_map(|o| if let Op::Ins(_, _, v) = o { Some(v.clone()) } else { None }).collect()
+}
+
+fn level_of(ix: &HnswIndex, id: u64) -> Option<usize> {
+    let (_, _, nodes) = ix.verif_dump();
+    nodes.iter().find(|(i, _)| i.0 == id).map(|(_, ls)| ls.len().saturating_sub(1))
+}
+
+enum Built {
+    Ok(HnswIndex),
+    Level,
+    Pick,
+}
+
+/// one attempt; `Err(())` = the HashMap handed out another entry point than `pick`
+fn build_once(l: &Line) -> Result<Built, ()> {
+    let ix = new_index(l);
+    for op in &l.ops {
+        match op {
+            Op::Ins(id, lv, v) => {
+                ix.insert(NodeId::new(*id), &fvec(v));
+                if level_of(&ix, *id) != Some(*lv) {
+                    return Ok(Built::Level);
+                }
+            }
+            Op::Rem(id, pick) => {
+                let was_entry = ix.verif_dump().0 == Some(NodeId::new(*id));
+                let found = ix.remove(NodeId::new(*id));
+                if found && was_entry && ix.len() > 0 {
+                    if !ix.contains(NodeId::new(*pick)) {
+                        return Ok(Built::Pick);
+                    }
+                    if ix.verif_dump().0 != Some(NodeId::new(*pick)) {
+                        return Err(());
+                    }
+                }
+            }
+        }
+    }
+    Ok(Built::Ok(ix))
+}
+
+fn build(l: &Line, force_picks: bool) -> Built {
+    for _ in 0..20000 {
+        match build_once(l) {
+            Ok(b) => return b,
+            Err(()) => {
+                if !force_picks {
+                    // any choice will do: replay without insisting (one more attempt that ignores picks)
+                    let mut l2 = l.clone();
+                    return build_free(&l2);
+                }
+            }
+        }
+    }
+    Built::Pick
+}
+
+/// build without forcing the entry-point choice (verdict lines)
+fn build_free(l: &Line) -> Built {
+    let ix = new_index(l);
+    for op in &l.ops {
+        match op {
+            Op::Ins(id, lv, v) => {
+                ix.insert(NodeId::new(*id), &fvec(v));
+                if level_of(&ix, *id) != Some(*lv) {
+                    return Built::Level;
+                }
+            }
+            Op::Rem(id, _) => {
+                ix.remove(NodeId::new(*id));
+            }
+        }
+    }
+    Built::Ok(ix)
+}
+
+fn show_dump(ix: &HnswIndex) -> String {
+    let (entry, max_level, nodes) = ix.verif_dump();
+    let mut parts = vec![entry.map_or("N".to_string(), |e| e.0.to_string()), max_level.to_string()];
+    for (id, levels) in &nodes {
+        let ls: Vec<String> = levels
+            .iter()
+            .map(|l| if l.is_empty() { "_".to_string() } else { l.iter().map(|n| n.0.to_string()).collect::<Vec<_>>().join(",") })
+            .collect();
+        parts.push(format!("{}={}", id.0, ls.join("/")));
+    }
+    parts.join(";")
+}
+
+fn search_sound(l: &Line, ix: &HnswIndex, q: &[i64]) -> bool {
+    let qf = fvec(q);
+    let r = ix.search_with_ef(&qf, 2, l.efc);
+    if r.len() > 2 {
+        return false;
+    }
+    let ids: BTreeSet<u64> = r.iter().map(|(i, _)| i.0).collect();
+    if ids.len() != r.len() {
+        return false;
+    }
+    for (i, d) in &r {
+        match ix.get(*i) {
+            None => return false,
+            Some(v) => {
+                if compute_distance(&qf, &v, l.metric).to_bits() != d.to_bits() {
+                    return false;
+                }
+            }
+        }
+    }
+    r.windows(2).all(|w| w[0].1 <= w[1].1)
+}
+
+fn verdicts(l: &Line, ix: &HnswIndex) -> (String, String) {
+    let (entry, max_level, nodes) = ix.verif_dump();
+    let level: BTreeMap<u64, usize> = nodes.iter().map(|(i, ls)| (i.0, ls.len().saturating_sub(1))).collect();
+    let (mut a, mut b, mut c, mut d, mut e) = (true, true, true, true, true);
+    for (id, ls) in &nodes {
+        for (lc, list) in ls.iter().enumerate() {
+            let mut seen = BTreeSet::new();
+            for x in list {
+                if !level.contains_key(&x.0) {
+                    a = false;
+                }
+                if x.0 == id.0 {
+                    b = false;
+                }
+                if !seen.insert(x.0) {
+                    c = false;
+                }
+                if let Some(lv) = level.get(&x.0) {
+                    if lc > *lv {
+                        e = false;
+                    }
+                }
+            }
+            if list.len() > if lc == 0 { l.m0 } else { l.m } {
+                d = false;
+            }
+        }
+    }
+    let f1 = match entry {
+        None => nodes.is_empty(),
+        Some(en) => level.contains_key(&en.0),
+    };
+    let f2 = match entry {
+        None => true,
+        Some(en) => level.get(&en.0) == Some(&max_level) && level.values().all(|lv| *lv <= max_level),
+    };
+    let ids: BTreeSet<u64> = nodes.iter().map(|(i, _)| i.0).collect();
+    let g = ids.len() == nodes.len() && ix.len() == nodes.len();
+    let s = ins_vecs(&l.ops).iter().all(|q| search_sound(l, ix, q));
+    let fmt = |xs: Vec<(&str, bool)>| {
+        let bad: Vec<&str> = xs.iter().filter(|(_, ok)| !ok).map(|(n, _)| *n).collect();
+        if bad.is_empty() { "ok".to_string() } else { format!("viol:{}", bad.join(",")) }
+    };
+    (fmt(vec![("a", a), ("d", d), ("f1", f1), ("g", g), ("s", s)]), fmt(vec![("b", b), ("c", c), ("e", e), ("f2", f2)]))
+}
+
+fn words_needed(n: usize) -> usize {
+    (n + 63) / 64
+}
+
+pub fn run(toks: &[&str]) -> String {
+    if toks.is_empty() {
+        return "bad-op".into();
+    }
+    let toks: Vec<String> = toks.iter().map(|s| s.to_string()).collect();
+    guarded(move || {
+        let a: Vec<&str> = toks[1..].iter().map(|s| s.as_str()).collect();
+        match toks[0].as_str() {
+            "hist" => {
+                let Some(l) = parse_line(&a) else { return "bad-op".into() };
+                if !tie_free(l.metric, &ins_vecs(&l.ops)) {
+                    return "ties".into();
+                }
+                match build(&l, true) {
+                    Built::Level => "level-mismatch".into(),
+                    Built::Pick => "pick-mismatch".into(),
+                    Built::Ok(ix) => {
+                        let (core, shape) = verdicts(&l, &ix);
+                        format!("{}#{}#{}#{}", core, shape, ix.len(), show_dump(&ix))
+                    }
+                }
+            }
+            "inv" => {
+                let Some(l) = parse_line(&a) else { return "bad-op".into() };
+                match build_free(&l) {
+                    Built::Level => "level-mismatch".into(),
+                    Built::Pick => "pick-mismatch".into(),
+                    Built::Ok(ix) => verdicts(&l, &ix).0,
+                }
+            }
+            "bq.ham" => {
+                if a.len() != 2 {
+                    return "bad-op".into();
+                }
+                let (Some(x), Some(y)) = (parse_ints(a[0]), parse_ints(a[1])) else { return "bad-op".into() };
+                if words_needed(x.len()) != words_needed(y.len()) {
+                    return "bad-op".into();
+                }
+                let (cx, cy) = (BinaryQuantizer::quantize(&fvec(&x)), BinaryQuantizer::quantize(&fvec(&y)));
+                format!("{};{};{}", join(&cx), join(&cy), BinaryQuantizer::hamming_distance(&cx, &cy))
+            }
+            "sq.rt" => {
+                if a.len() != 3 {
+                    return "bad-op".into();
+                }
+                let (Some(mn), Some(lg), Some(xs)) = (int(a[0]), nat(a[1]), parse_ints(a[2])) else { return "bad-op".into() };
+                if lg > 6 || xs.is_empty() {
+                    return "bad-op".into();
+                }
+                let s = (1u64 << lg) as f32;
+                let n = xs.len();
+                let q = ScalarQuantizer::with_ranges(vec![mn as f32; n], vec![mn as f32 + 255.0 * s; n]);
+                let codes = q.quantize(&fvec(&xs));
+                let back = q.dequantize(&codes);
+                let within = xs.iter().zip(&back).all(|(x, y)| *y <= *x as f32 && (*x as f32) < *y + s);
+                let back_s: Vec<String> =
+                    back.iter().map(|y| if y.fract() == 0.0 && y.abs() < 1e9 { format!("{}", *y as i64) } else { format!("f{:08x}", y.to_bits()) }).collect();
+                format!("{};{};{}", join(&codes), back_s.join(","), if within { "within" } else { "off" })
+            }
+            _ => "bad-op".into(),
+        }
+    })
+}
+
+fn parse_ints(s: &str) -> Option<Vec<i64>> {
+    if s == "-" || s.is_empty() {
+        return Some(vec![]);
+    }
+    s.split(',').map(int).collect()
+}
+
+// ------------------------------------------------------------------------------------ generator
+
+#[derive(Default)]
+struct Stats {
+    lines: BTreeMap<&'static str, usize>,
+    ev: BTreeMap<&'static str, usize>,
+}
+
+impl Stats {
+    fn line(&mut self, k: &'static str) {
+        *self.lines.entry(k).or_default() += 1;
+    }
+    fn ev(&mut self, k: &'static str) {
+        *self.ev.entry(k).or_default() += 1;
+    }
+}
+
+fn rand_vec(rng: &mut Rng, dim: usize) -> Vec<i64> {
+    let hi = if dim == 1 { 60 } else { 15 };
+    (0..dim).map(|_| rng.below(hi + 1) as i64).collect()
+}
+
+/// a history; levels are read off the real index under (seed, ml)
+fn gen_history(rng: &mut Rng, tie_free_wanted: bool, st: &mut Stats) -> Line {
+    let metric = if rng.chance(1, 2) { DistanceMetric::Euclidean } else { DistanceMetric::Manhattan };
+    let alphas: &[(u64, u64)] = if metric == DistanceMetric::Euclidean { &[(1, 1), (1, 1), (2, 1), (1, 2)] } else { &[(1, 1), (1, 1), (2, 1), (1, 2), (3, 2)] };
+    let (num, den) = *rng.pick(alphas);
+    let dim = rng.range(1, 3) as usize;
+    let m = *rng.pick(&[0usize, 1, 1, 2, 2, 3, 4]);
+    let m0 = *rng.pick(&[0usize, 1, 2, 2, 3, 4, 6]);
+    let efc = *rng.pick(&[0usize, 1, 2, 3, 4, 8, 8, 16]);
+    let seed = rng.below(1 << 32);
+    let ml = *rng.pick(&[0.0f64, 0.4, 0.7, 1.0, 1.0, 2.0]);
+    let mut l = Line { metric, num, den, dim, m, m0, efc, seed, ml: ml.to_bits(), ops: vec![] };
+    let ix = new_index(&l);
+    let n_ops = rng.range(0, 11) as usize;
+    let pool = rng.range(2, 7);
+    let mut present: BTreeSet<u64> = BTreeSet::new();
+    let mut entry: Option<u64> = None;
+    let mut max_level = 0usize;
+    let mut ws: Vec<Vec<i64>> = Vec::new();
+    for _ in 0..n_ops {
+        if present.is_empty() || rng.chance(13, 20) {
+            // insert
+            let fresh: Vec<u64> = (1..=pool).filter(|i| !present.contains(i)).collect();
+            let id = if !fresh.is_empty() && rng.chance(3, 4) { *rng.pick(&fresh) } else { rng.range(1, pool) };
+            let mut v = rand_vec(rng, dim);
+            if tie_free_wanted {
+                let mut ok = false;
+                for _ in 0..60 {
+                    ws.push(v.clone());
+                    let t = tie_free(metric, &ws);
+                    ws.pop();
+                    if t {
+                        ok = true;
+                        break;
+                    }
+                    v = rand_vec(rng, dim);
+                }
+                if !ok {
+                    break;
+                }
+            } else if !ws.is_empty() && rng.chance(1, 6) {
+                v = rng.pick(&ws).clone(); // an intended tie: the same vector again
+            }
+            ws.push(v.clone());
+            ix.insert(NodeId::new(id), &fvec(&v));
+            let lv = level_of(&ix, id).unwrap_or(0);
+            st.ev(if present.contains(&id) { "insert.present-id" } else { "insert.fresh-id" });
+            if lv > 0 {
+                st.ev("insert.level>0");
+            }
+            if entry.is_none() {
+                entry = Some(id);
+                max_level = lv;
+            } else if lv > max_level {
+                entry = Some(id);
+                max_level = lv;
+                st.ev("insert.new-top");
+            }
+            present.insert(id);
+            l.ops.push(Op::Ins(id, lv, v));
+        } else {
+            let id = if entry.is_some() && rng.chance(3, 10) {
+                entry.unwrap()
+            } else if rng.chance(1, 6) {
+                rng.range(1, pool + 1)
+            } else {
+                *rng.pick(&present.iter().copied().collect::<Vec<_>>())
+            };
+            let was = present.remove(&id);
+            let rest: Vec<u64> = present.iter().copied().collect();
+            let pick = if rest.is_empty() { 0 } else { *rng.pick(&rest) };
+            if was && entry == Some(id) {
+                entry = if rest.is_empty() { None } else { Some(pick) };
+                st.ev("remove.entry-point");
+            } else if was {
+                st.ev("remove.other");
+            } else {
+                st.ev("remove.absent");
+            }
+            ix.remove(NodeId::new(id));
+            l.ops.push(Op::Rem(id, pick));
+        }
+    }
+    // how often pruning / selection limits were reached
+    let (_, _, nodes) = ix.verif_dump();
+    for (_, ls) in &nodes {
+        for (lc, list) in ls.iter().enumerate() {
+            if list.len() == if lc == 0 { m0 } else { m } && !list.is_empty() {
+                st.ev("list.at-bound");
+            }
+        }
+    }
+    l
+}
+
+pub fn generate(seed: u64, cases: usize, out: &mut Vec<String>) {
+    let mut rng = Rng::new(seed ^ 0x68c0_6e5f_11aa_7731);
+    let mut st = Stats::default();
+    // fixed boundary lines
+    out.push("# case 0 seed 0".to_string());
+    for s in [
+        "hcon hist e 1/1 2 2 4 8 1 0 _",
+        "hcon inv e 1/1 2 2 4 8 1 0 _",
+        "hcon hist e 1/1 1 2 4 8 1 0 i1:0:5",
+        "hcon hist e 1/1 1 2 4 8 1 0 i1:0:5|i1:0:9",
+        "hcon hist e 1/1 1 2 4 8 1 0 i1:0:5|r1:0",
+        "hcon hist e 1/1 1 2 4 8 1 0 i1:0:5|r2:0",
+        "hcon hist m 1/1 1 1 1 8 1 0 i1:0:0|i2:0:10|i3:0:4|i4:0:9",
+        "hcon hist m 1/1 1 1 2 8 1 0 i1:0:0|i2:0:10|i3:0:4|r1:3|i4:0:9",
+        "hcon inv m 1/1 1 1 2 8 1 0 i1:0:0|i2:0:0|i3:0:0|r1:3|i4:0:0",
+        "hcon hist e 1/1 1 0 0 8 1 0 i1:0:0|i2:0:10",
+        "hcon hist e 1/1 1 2 4 0 1 0 i1:0:0|i2:0:10|i3:0:3",
+        "hcon bq.ham - -",
+        "hcon bq.ham 1,-1,0 1,1,-2",
+        "hcon bq.ham 1 -1",
+        "hcon sq.rt 0 0 0,1,254,255,256,-1",
+        "hcon sq.rt -10 2 -10,-9,-7,-6,1010,1011",
+    ] {
+        out.push(s.to_string());
+    }
+    for case in 1..=cases {
+        out.push(format!("# case {} seed {}", case, seed));
+        let l = gen_history(&mut rng, true, &mut st);
+        out.push(show_line("hist", &l));
+        st.line("hist");
+        if rng.chance(1, 2) {
+            out.push(show_line("inv", &l));
+            st.line("inv");
+        }
+        let l2 = gen_history(&mut rng, false, &mut st);
+        out.push(show_line("inv", &l2));
+        st.line("inv");
+        if rng.chance(1, 2) {
+            // binary quantisation: lengths around the 64-bit word boundaries
+            let n = *rng.pick(&[0u64, 1, 2, 5, 63, 64, 65, 100, 128, 129]) as usize;
+            let n2 = if rng.chance(1, 8) { (n + rng.range(1, 3) as usize).min(words_needed(n).max(1) * 64) } else { n };
+            let n2 = if words_needed(n2) == words_needed(n) { n2 } else { n };
+            let a: Vec<i64> = (0..n).map(|_| rng.below(7) as i64 - 3).collect();
+            let b: Vec<i64> = if rng.chance(1, 6) && n2 == n { a.clone() } else { (0..n2).map(|_| rng.below(7) as i64 - 3).collect() };
+            out.push(format!("hcon bq.ham {} {}", list_arg(&a), list_arg(&b)));
+            st.line("bq.ham");
+        }
+        if rng.chance(1, 2) {
+            let mn = rng.below(101) as i64 - 50;
+            let lg = rng.below(7);
+            let s = 1i64 << lg;
+            let n = rng.range(1, 6);
+            let xs: Vec<i64> = (0..n)
+                .map(|_| match rng.below(8) {
+                    0 => mn,
+                    1 => mn + 255 * s,
+                    2 => mn - rng.range(1, 40) as i64,
+                    3 => mn + 255 * s + rng.range(1, 40) as i64,
+                    _ => mn + rng.below(255 * s as u64 + 1) as i64,
+                })
+                .collect();
+            out.push(format!("hcon sq.rt {} {} {}", mn, lg, join(&xs)));
+            st.line("sq.rt");
+        }
+    }
+    if std::env::var("VH_STATS").is_ok() {
+        eprintln!("hcon lines: {:?}", st.lines);
+        eprintln!("hcon events: {:?}", st.ev);
+    }
 }
